@@ -385,6 +385,7 @@ type seqRun struct {
 	dag  string
 	cls  map[string]int
 	stat map[string]int
+	fp   string // extra dimensions of the case fingerprint (young-DAG matrix: format version / key family / private)
 }
 
 func stage(perr, aerr error) string {
@@ -624,7 +625,7 @@ func (q *seqRun) caseDone(o *offerT, slot string, v verdict, st string) {
 	if len(o.f.prevs) == 0 {
 		root = "/root"
 	}
-	q.r.Case(fmt.Sprintf("%s/%s/%s%s/%s/%s", o.f.class, slot, kind, root, v, st), true)
+	q.r.Case(fmt.Sprintf("%s/%s/%s%s/%s/%s%s", o.f.class, slot, kind, root, v, st, q.fp), true)
 	if st != "admitted" && v == mustReject && o.f.group != "order" && q.r.Get("hostile_samples") < 3 && q.stat["sampled_"+o.f.group] == 0 {
 		q.stat["sampled_"+o.f.group] = 1
 		q.r.Count("hostile_samples", 1)
@@ -797,7 +798,7 @@ func runDAG(t *testing.T, r *ev.Run, ks *keyring, di int, sp dagSpec, classes ma
 	}
 	for ti, i := range order {
 		all := variants(d, d.nodes[i], ks, rnd)
-		quota := r.Pick(16, 30)
+		quota := r.Pick(18, 32)
 		if r.Thorough() && ti < 2 {
 			quota = len(all)
 		}
@@ -1007,7 +1008,8 @@ func TestCheck(t *testing.T) {
 	logrus.SetOutput(io.Discard)
 	r.SetRule("sequential cases = (generated DAG, arrival position, offered item): the item is a generated valid transaction, a re-submission, an out-of-order arrival or one of ~150 classes of " +
 		"hostile/unspecified variants of a target transaction (headers removed/retyped/duplicated, algorithms, serialisations, kid/jwk, key rotation, prevs, clock, payload, second root, bit flips, " +
-		"re-encodings), submitted through dag.ParseTransaction + State.Add to a real State. A reference model that uses only what the generator built decides must-be-refused / must-be-admitted / " +
+		"re-encodings), submitted through dag.ParseTransaction + State.Add to a real State. Young-DAG matrix: for every (format version 1|2, key family, private or not) a three-transaction " +
+		"DAG whose root and first child receive EVERY variant class, the root's ones against the EMPTY DAG (where an absent/null/retyped lc, prevs or sigt would default to the very value a root needs). A reference model that uses only what the generator built decides must-be-refused / must-be-admitted / " +
 		"unspecified; after every offer the full store dump (all buckets), digests, presence set and receiver calls are compared. Concurrent cases = (template, steered interleaving) of <=12 " +
 		"transactions, checked with porcupine against the sequential set model plus exactly-once observations. A case is non-trivial when an Add/Parse result was compared with the model on a " +
 		"store that the snapshot monitor observed; distinct by (class, slot, key reference kind, model verdict, stage of refusal) resp. (template, interleaving).")
@@ -1016,5 +1018,6 @@ func TestCheck(t *testing.T) {
 	r.Assume("ECDSA/RSA key values and signatures come from crypto/rand; no verdict depends on them")
 	ks := newKeyring()
 	sequential(t, r, ks)
+	young(t, r, ks)
 	concurrent(t, r, ks)
 }
